@@ -141,6 +141,9 @@ func TestC14Withdrawn(t *testing.T) {
 		d := withdrawnDesc{Defs: kindsFor(n, rapid.IntRange(0, 2).Draw(rt, "variant")), Parallel: rapid.Bool().Draw(rt, "parallel"),
 			Lost: rapid.IntRange(1, 3).Draw(rt, "lost"), Rounds: rapid.IntRange(1, 3).Draw(rt, "rounds"), DeclSeed: rapid.IntRange(0, 200).Draw(rt, "declSeed")}
 		d.Order = rapid.Permutation(seqN(n)).Draw(rt, "order")
+		if rapid.IntRange(0, 2).Draw(rt, "qualifiedRefs") == 0 {
+			d.Defs = qualified(d.Defs)
+		}
 		hash := rec.Hash(d)
 		rec.Begin("TestC14Withdrawn", hash, d)
 		s, dd, inc := runWithdrawn(d)
